@@ -101,6 +101,9 @@ pub enum Body {
     BigMetadata { res: u8, key_len: u16, value_len: u32 },
     /// `n` separate transfers in one manifest (many events, many invocations)
     MultiTransfer { res: u8, to: u8, n: u8 },
+    /// F18: a native method called with arguments it does not expect (wrong types, extreme values,
+    /// dangling references); `target` picks an existing global object, `method` a native method name
+    Garbage { target: u8, method: String, args: Vec<GArg>, with_bucket: bool },
     LockMetadata { res: u8, key: u8 },
     /// role-assignment module: set the owner rule to "require signature of party `to`"
     SetOwnerRole { res: u8, to: u8 },
@@ -148,6 +151,7 @@ impl Body {
             Body::SetMetadata { .. } => "SetMetadata",
             Body::BigMetadata { .. } => "BigMetadata",
             Body::MultiTransfer { .. } => "MultiTransfer",
+            Body::Garbage { .. } => "Garbage",
             Body::LockMetadata { .. } => "LockMetadata",
             Body::SetOwnerRole { .. } => "SetOwnerRole",
             Body::LockOwnerRole { .. } => "LockOwnerRole",
@@ -160,6 +164,44 @@ impl Body {
         }
     }
 }
+
+/// Argument shapes for `Body::Garbage`.
+#[derive(Clone, Debug, Serialize, Deserialize, PartialEq)]
+pub enum GArg {
+    DecMax,
+    DecMin,
+    DecZero,
+    DecAtto,
+    DecNeg,
+    U8(u8),
+    U32(u32),
+    U64(u64),
+    I64(i64),
+    Bool(bool),
+    Str(u16),
+    Bytes(u16),
+    /// an address: 0 own account, 1 XRD, 2 a fungible, 3 a non-fungible, 4 faucet, 5 consensus manager, 6 a pool, 7 a validator
+    Addr(u8),
+    /// bucket / proof id that does not exist
+    DanglingBucket(u32),
+    DanglingProof(u32),
+    /// the bucket taken from the worktop by this step (if any)
+    TheBucket,
+    IntId(u64),
+    None,
+    SomeOf(Box<GArg>),
+    EnumVariant(u8, Vec<GArg>),
+    Tuple(Vec<GArg>),
+    Array(Vec<GArg>),
+    EmptyMap,
+}
+
+pub const GARBAGE_METHODS: [&str; 40] = [
+    "withdraw", "deposit", "deposit_batch", "try_deposit_or_abort", "lock_fee", "lock_contingent_fee", "create_proof_of_amount", "create_proof_of_non_fungibles", "burn", "mint", "mint_ruid", "recall", "freeze",
+    "unfreeze", "take", "take_advanced", "put", "get_amount", "update_non_fungible_data", "get_non_fungible", "contribute", "redeem", "protected_deposit", "protected_withdraw", "get_redemption_value", "stake", "unstake",
+    "claim_xrd", "update_fee", "update_key", "lock_owner_stake_units", "start_unlock_owner_stake_units", "next_round", "get_current_epoch", "compare_current_time", "create_validator", "set_default_deposit_rule",
+    "set_resource_preference", "add_authorized_depositor", "securify",
+];
 
 #[derive(Clone, Debug, Serialize, Deserialize, PartialEq)]
 pub struct LStep {
@@ -623,6 +665,106 @@ pub fn build(step: &LStep, view: &View, node: &Node) -> Built {
             }
             bb
         }
+        Body::Garbage { target, method, args, with_bucket } => {
+            let addr_of = |k: u8| -> GlobalAddress {
+                match k % 8 {
+                    0 => acct.into(),
+                    1 => XRD.into(),
+                    2 => view.fres.last().map(|r| r.addr.into()).unwrap_or(XRD.into()),
+                    3 => view.nres.last().map(|r| r.addr.into()).unwrap_or(XRD.into()),
+                    4 => FAUCET.into(),
+                    5 => CONSENSUS_MANAGER.into(),
+                    6 => view.pools.last().map(|p| p.addr.into()).unwrap_or(acct.into()),
+                    _ => view.vals.last().map(|v| v.addr.into()).unwrap_or(CONSENSUS_MANAGER.into()),
+                }
+            };
+            fn val(a: &GArg, addr_of: &dyn Fn(u8) -> GlobalAddress, bucket: Option<ManifestBucket>) -> ManifestValue {
+                let d = |x: Decimal| ManifestValue::Custom { value: ManifestCustomValue::Decimal(from_decimal(&x)) };
+                match a {
+                    GArg::DecMax => d(Decimal::MAX),
+                    GArg::DecMin => d(Decimal::MIN),
+                    GArg::DecZero => d(Decimal::ZERO),
+                    GArg::DecAtto => d(Decimal::from_attos(I192::from(1))),
+                    GArg::DecNeg => d(Decimal::from(-1)),
+                    GArg::U8(x) => ManifestValue::U8 { value: *x },
+                    GArg::U32(x) => ManifestValue::U32 { value: *x },
+                    GArg::U64(x) => ManifestValue::U64 { value: *x },
+                    GArg::I64(x) => ManifestValue::I64 { value: *x },
+                    GArg::Bool(x) => ManifestValue::Bool { value: *x },
+                    GArg::Str(n) => ManifestValue::String { value: "s".repeat(*n as usize) },
+                    GArg::Bytes(n) => ManifestValue::Array { element_value_kind: ManifestValueKind::U8, elements: (0..*n).map(|i| ManifestValue::U8 { value: i as u8 }).collect() },
+                    GArg::Addr(k) => ManifestValue::Custom { value: ManifestCustomValue::Address(ManifestAddress::Static(addr_of(*k).into_node_id())) },
+                    GArg::DanglingBucket(i) => ManifestValue::Custom { value: ManifestCustomValue::Bucket(ManifestBucket(1000 + *i)) },
+                    GArg::DanglingProof(i) => ManifestValue::Custom { value: ManifestCustomValue::Proof(ManifestProof(1000 + *i)) },
+                    GArg::TheBucket => match bucket {
+                        Some(b) => ManifestValue::Custom { value: ManifestCustomValue::Bucket(b) },
+                        None => ManifestValue::Tuple { fields: vec![] },
+                    },
+                    GArg::IntId(i) => ManifestValue::Custom { value: ManifestCustomValue::NonFungibleLocalId(from_non_fungible_local_id(NonFungibleLocalId::integer(*i))) },
+                    GArg::None => ManifestValue::Enum { discriminator: 0, fields: vec![] },
+                    GArg::SomeOf(x) => ManifestValue::Enum { discriminator: 1, fields: vec![val(x, addr_of, bucket)] },
+                    GArg::EnumVariant(k, f) => ManifestValue::Enum { discriminator: *k, fields: f.iter().map(|x| val(x, addr_of, bucket)).collect() },
+                    GArg::Tuple(f) => ManifestValue::Tuple { fields: f.iter().map(|x| val(x, addr_of, bucket)).collect() },
+                    GArg::Array(f) => {
+                        let elems: Vec<ManifestValue> = f.iter().map(|x| val(x, addr_of, bucket)).collect();
+                        // arrays must be homogeneous to encode: the first element, repeated
+                        let kind = |v: &ManifestValue| -> ManifestValueKind {
+                            match v {
+                                ManifestValue::Bool { .. } => ManifestValueKind::Bool,
+                                ManifestValue::U8 { .. } => ManifestValueKind::U8,
+                                ManifestValue::U32 { .. } => ManifestValueKind::U32,
+                                ManifestValue::U64 { .. } => ManifestValueKind::U64,
+                                ManifestValue::I64 { .. } => ManifestValueKind::I64,
+                                ManifestValue::String { .. } => ManifestValueKind::String,
+                                ManifestValue::Enum { .. } => ManifestValueKind::Enum,
+                                ManifestValue::Array { .. } => ManifestValueKind::Array,
+                                ManifestValue::Tuple { .. } => ManifestValueKind::Tuple,
+                                ManifestValue::Map { .. } => ManifestValueKind::Map,
+                                ManifestValue::Custom { value } => ManifestValueKind::Custom(match value {
+                                    ManifestCustomValue::Address(_) => ManifestCustomValueKind::Address,
+                                    ManifestCustomValue::Bucket(_) => ManifestCustomValueKind::Bucket,
+                                    ManifestCustomValue::Proof(_) => ManifestCustomValueKind::Proof,
+                                    ManifestCustomValue::Decimal(_) => ManifestCustomValueKind::Decimal,
+                                    ManifestCustomValue::NonFungibleLocalId(_) => ManifestCustomValueKind::NonFungibleLocalId,
+                                    _ => ManifestCustomValueKind::Expression,
+                                }),
+                                _ => ManifestValueKind::Tuple,
+                            }
+                        };
+                        match elems.first() {
+                            Some(first) => ManifestValue::Array { element_value_kind: kind(first), elements: vec![first.clone(); elems.len()] },
+                            None => ManifestValue::Array { element_value_kind: ManifestValueKind::U8, elements: vec![] },
+                        }
+                    }
+                    GArg::EmptyMap => ManifestValue::Map { key_value_kind: ManifestValueKind::String, value_value_kind: ManifestValueKind::U8, entries: vec![] },
+                }
+            }
+            let mut bb = b;
+            let mut bucket = None;
+            if *with_bucket {
+                // one XRD from the own account as a real bucket argument (bucket id 0: the first one created)
+                bb = bb.withdraw_from_account(acct, XRD, Decimal::ONE).take_all_from_worktop(XRD, "g");
+                bucket = Some(ManifestBucket(0));
+            }
+            let fields: Vec<ManifestValue> = args.iter().map(|a| val(a, &addr_of, bucket)).collect();
+            let args_value = ManifestValue::Tuple { fields };
+            let target_addr = addr_of(*target);
+            let uses_bucket = *with_bucket && format!("{:?}", args).contains("TheBucket");
+            let mut instrs = bb.build_no_validate().instructions;
+            instrs.push(InstructionV1::CallMethod(radix_transactions::manifest::CallMethod { address: ManifestGlobalAddress::Static(target_addr), method_name: method.clone(), args: args_value }));
+            if *with_bucket && !uses_bucket {
+                instrs.push(InstructionV1::ReturnToWorktop(radix_transactions::manifest::ReturnToWorktop { bucket_id: ManifestBucket(0) }));
+            }
+            let m = TransactionManifestV1 { instructions: instrs, blobs: Default::default(), object_names: Default::default() };
+            // leftovers go back to the actor
+            let mut full = m.instructions;
+            full.push(InstructionV1::CallMethod(radix_transactions::manifest::CallMethod {
+                address: ManifestGlobalAddress::Static(acct.into()),
+                method_name: "try_deposit_batch_or_abort".to_string(),
+                args: manifest_args!(ManifestExpression::EntireWorktop, Option::<ResourceOrNonFungible>::None).into(),
+            }));
+            return Built::User(TransactionManifestV1 { instructions: full, blobs: Default::default(), object_names: Default::default() });
+        }
         Body::LockMetadata { res, key } => {
             let Some(r) = fres(res) else { return Built::Skip };
             if r.owner.is_none() {
@@ -810,6 +952,37 @@ pub struct Weights {
     /// C49: long metadata keys / values and many transfers per manifest
     #[serde(default)]
     pub big_payloads: bool,
+    /// F18: native methods called with unexpected arguments
+    #[serde(default)]
+    pub garbage: u32,
+}
+
+fn gen_garg(rng: &mut Rng, depth: u8) -> GArg {
+    match rng.below(if depth == 0 { 19 } else { 24 }) {
+        0 => GArg::DecMax,
+        1 => GArg::DecMin,
+        2 => GArg::DecZero,
+        3 => GArg::DecAtto,
+        4 => GArg::DecNeg,
+        5 => GArg::U8(*rng.pick(&[0u8, 1, 255])),
+        6 => GArg::U32(*rng.pick(&[0u32, 1, u32::MAX])),
+        7 => GArg::U64(*rng.pick(&[0u64, 1, u64::MAX])),
+        8 => GArg::I64(*rng.pick(&[i64::MIN, -1, 0, i64::MAX])),
+        9 => GArg::Bool(rng.chance(1, 2)),
+        10 => GArg::Str(*rng.pick(&[0u16, 1, 100, 5000])),
+        11 => GArg::Bytes(*rng.pick(&[0u16, 32, 33, 1000])),
+        12..=13 => GArg::Addr(rng.below(8) as u8),
+        14 => GArg::DanglingBucket(rng.below(3) as u32),
+        15 => GArg::DanglingProof(rng.below(3) as u32),
+        16 => GArg::TheBucket,
+        17 => GArg::IntId(*rng.pick(&[0u64, 1, u64::MAX])),
+        18 => GArg::None,
+        19 => GArg::SomeOf(Box::new(gen_garg(rng, depth - 1))),
+        20 => GArg::EnumVariant(*rng.pick(&[0u8, 1, 2, 7, 255]), (0..rng.below(3)).map(|_| gen_garg(rng, depth - 1)).collect()),
+        21 => GArg::Tuple((0..rng.below(4)).map(|_| gen_garg(rng, depth - 1)).collect()),
+        22 => GArg::Array((0..rng.below(4)).map(|_| gen_garg(rng, depth - 1)).collect()),
+        _ => GArg::EmptyMap,
+    }
 }
 
 pub const ROYALTY_METHODS: [&str; 3] = ["method_with_no_package_royalty", "method_with_xrd_package_royalty", "method_with_usd_package_royalty"];
@@ -888,6 +1061,7 @@ pub fn gen_step(rng: &mut Rng, view: &View, node: &Node, w: &Weights, fault_perm
         (w.metadata, 6),
         (w.restarts, 7),
         (w.royalties, 8),
+        (w.garbage, 9),
     ];
     let class = *rng.pick_weighted(&table);
     let nn = view.nres.len().max(1) as u64;
@@ -1059,6 +1233,31 @@ pub fn gen_step(rng: &mut Rng, view: &View, node: &Node, w: &Weights, fault_perm
                 6 => Body::SetOwnerRole { res: r, to: rng.below(np) as u8 },
                 _ => Body::LockOwnerRole { res: r },
             }
+        }
+        9 => {
+            let target = rng.below(8) as u8;
+            // mostly a method the target really has (so that the arguments are what is wrong)
+            let own: &[&str] = match target {
+                0 => &["withdraw", "withdraw_non_fungibles", "deposit", "deposit_batch", "try_deposit_or_abort", "try_deposit_batch_or_refund", "lock_fee", "lock_contingent_fee", "lock_fee_and_withdraw", "create_proof_of_amount", "create_proof_of_non_fungibles", "burn", "burn_non_fungibles", "securify", "set_default_deposit_rule", "set_resource_preference", "remove_resource_preference", "add_authorized_depositor", "remove_authorized_depositor", "balance", "non_fungible_local_ids", "has_non_fungible"],
+                1..=3 => &["mint", "mint_ruid", "mint_single_ruid", "burn", "package_burn", "create_empty_bucket", "create_empty_vault", "get_resource_type", "get_total_supply", "amount_for_withdrawal", "drop_empty_bucket", "update_non_fungible_data", "non_fungible_exists", "get_non_fungible"],
+                4 => &["free", "lock_fee"],
+                5 => &["next_round", "get_current_epoch", "get_current_time", "compare_current_time", "create_validator", "start"],
+                6 => &["contribute", "redeem", "protected_deposit", "protected_withdraw", "get_redemption_value", "get_vault_amount", "get_vault_amounts"],
+                _ => &["stake", "stake_as_owner", "unstake", "claim_xrd", "update_fee", "update_key", "register", "unregister", "update_accept_delegated_stake", "lock_owner_stake_units", "start_unlock_owner_stake_units", "finish_unlock_owner_stake_units", "apply_emission", "apply_reward", "get_redemption_value", "signal_protocol_update_readiness", "total_stake_xrd_amount", "total_stake_unit_supply"],
+            };
+            let method = if rng.chance(4, 5) { rng.pick(own).to_string() } else { rng.pick(&GARBAGE_METHODS).to_string() };
+            // argument lists shaped like the common signatures, with extreme values; or anything
+            let decx = |rng: &mut Rng| rng.pick(&[GArg::DecMax, GArg::DecMin, GArg::DecZero, GArg::DecAtto, GArg::DecNeg]).clone();
+            let (args, with_bucket) = match rng.below(8) {
+                0 => (vec![GArg::Addr(rng.below(4) as u8), decx(rng)], false),
+                1 => (vec![decx(rng)], false),
+                2 => (vec![GArg::TheBucket], true),
+                3 => (vec![GArg::TheBucket, GArg::None], true),
+                4 => (vec![decx(rng), GArg::EnumVariant(rng.below(3) as u8, vec![])], false),
+                5 => (vec![GArg::Addr(rng.below(4) as u8), GArg::Array(vec![GArg::IntId(*rng.pick(&[0u64, 1, u64::MAX]))])], false),
+                _ => ((0..rng.below(4)).map(|_| gen_garg(rng, 2)).collect(), rng.chance(1, 3)),
+            };
+            Body::Garbage { target, method, args, with_bucket }
         }
         8 => match rng.below(10) {
             0..=5 => {
